@@ -240,9 +240,22 @@ static void free_cb(void *p)
 	free(p);
 }
 
+static cfg_t *hcfg(long id);
+static void errfunc(cfg_t *cfg, const char *fmt, va_list ap);
 static int valid_cb(cfg_t *cfg, cfg_opt_t *opt)
 {
-	int fail = cb_tick("valid", opt, ",\"snap\":" + snap_opt(opt, 0));
+	string extra = ",\"snap\":" + snap_opt(opt, 0);
+	// an option whose name starts with "nv" has a validation callback that parses a (valid) text into context 2
+	if (opt->name[0] == 'n' && opt->name[1] == 'v') {
+		cfg_t *other = hcfg(2);
+		if (other && other != cfg) {
+			size_t n0 = g_diag.size();
+			int rc = cfg_parse_buf(other, "a = 7\n");
+			g_diag.resize(n0);
+			extra += ",\"nested_rc\":" + jnum(rc);
+		}
+	}
+	int fail = cb_tick("valid", opt, extra);
 	if (fail) {
 		cfg_error(cfg, "vt: validation callback refuses '%s'", opt->name);
 		return 1;
